@@ -176,3 +176,37 @@ package frame
 //@   requires ctx != nil
 //@   may_panic true
 //@   ensures forwards: nemitted() == 1 && evis(0, "OutboundContext.HandleWrite") && evrecv(0) == ctx && evarg(0, 0) == message
+
+// ---------------------------------------------------------------------------
+// C09 / C12: a codec instance sits in a pipeline that several goroutines write through at once:
+// its outbound path must not keep per-call state in the instance. Every field of every codec is
+// configuration fixed by its constructor (a field added later needs a discipline too); the
+// inbound-only scratch buffers (variableLengthCodec.buffer, packetCodec.readBuffer) are touched
+// by the single read loop only.
+//@ property C09 C12 C04
+//@ field fixedLengthCodec.* covered
+//@ field fixedLengthCodec.length immutable FixedLengthCodec
+//@ field delimiterCodec.* covered
+//@ field delimiterCodec.maxFrameLength immutable DelimiterCodec
+//@ field delimiterCodec.delimiter immutable DelimiterCodec
+//@ field delimiterCodec.stripDelimiter immutable DelimiterCodec
+//@ field lengthFieldCodec.* covered
+//@ field lengthFieldCodec.byteOrder immutable LengthFieldCodec
+//@ field lengthFieldCodec.maxFrameLength immutable LengthFieldCodec
+//@ field lengthFieldCodec.lengthFieldOffset immutable LengthFieldCodec
+//@ field lengthFieldCodec.lengthFieldLength immutable LengthFieldCodec
+//@ field lengthFieldCodec.lengthAdjustment immutable LengthFieldCodec
+//@ field lengthFieldCodec.initialBytesToStrip immutable LengthFieldCodec
+//@ field lengthFieldCodec.OutboundHandler immutable LengthFieldCodec
+//@ field lengthFieldPrepender.* covered
+//@ field lengthFieldPrepender.byteOrder immutable LengthFieldPrepender
+//@ field lengthFieldPrepender.lengthFieldLength immutable LengthFieldPrepender
+//@ field lengthFieldPrepender.lengthAdjustment immutable LengthFieldPrepender
+//@ field lengthFieldPrepender.lengthIncludesLengthFieldLength immutable LengthFieldPrepender
+//@ field varintLengthFieldCodec.* covered
+//@ field varintLengthFieldCodec.maxFrameLength immutable VarintLengthFieldCodec
+//@ field variableLengthCodec.* covered
+//@ field variableLengthCodec.maxReadLength immutable VariableLengthCodec
+//@ field variableLengthCodec.buffer immutable VariableLengthCodec
+//@ field packetCodec.* covered
+//@ field packetCodec.readBuffer immutable PacketCodec
